@@ -4128,6 +4128,55 @@ func replayC17(o *Obligation) (string, string, string, bool) {
 	if !strings.HasPrefix(o.Name, "syncutils.") {
 		return "", "", "", false
 	}
+	if strings.HasPrefix(o.Name, "syncutils.Stack.SignalShutdown") {
+		src := `package syncutils
+
+import (
+	"runtime"
+	"sync/atomic"
+	"testing"
+	"time"
+)
+
+// oracle: no lost wake-up for the shutdown signal - a goroutine in PopOrWait whose wait condition has been turned false
+// BEFORE SignalShutdown was called returns (bounded stress: the interleaving - the signal between the evaluation of the
+// condition and the parking of the waiter - is not forced)
+func TestVerifReplay(t *testing.T) {
+	deadline := time.Now().Add(40 * time.Second)
+	var cycles atomic.Int64
+	stuck := make(chan int64, 64)
+	for g := 0; g < 12; g++ {
+		go func() {
+			for time.Now().Before(deadline) {
+				s := NewStack[int]()
+				var running atomic.Bool
+				running.Store(true)
+				returned := make(chan struct{})
+				go func() { s.PopOrWait(running.Load); close(returned) }()
+				for i := 0; i < int(cycles.Load()%5); i++ {
+					runtime.Gosched()
+				}
+				running.Store(false)
+				s.SignalShutdown()
+				select {
+				case <-returned:
+				case <-time.After(3 * time.Second):
+					stuck <- cycles.Load()
+					return
+				}
+				cycles.Add(1)
+			}
+		}()
+	}
+	select {
+	case n := <-stuck:
+		t.Fatalf("REPLAY-VIOLATION Stack: after about %d cycles a PopOrWait whose wait condition was turned false before SignalShutdown() does not return (the broadcast came between the waiter's look at the condition and its going to sleep: lost wake-up)", n)
+	case <-time.After(41 * time.Second):
+	}
+}
+`
+		return "runtime", "syncutils", src, true
+	}
 	src := `package syncutils
 
 import (
